@@ -40,7 +40,7 @@ class Unit:
 
 class Harness:
     def __init__(self, unit, fn, unwind=8, tiers=('quick', 'thorough'), timeout=600, mem_gb=6, unwindset=None, flags=(),
-                 known=None, bounds='', witnesses=None, validate_runs=400, rotate=None, thorough_unwind=None, object_bits=None):
+                 known=None, bounds='', witnesses=None, validate_runs=400, rotate=None, thorough_unwind=None, object_bits=None, rotate_thorough=None):
         self.unit, self.fn, self.unwind, self.tiers = unit, fn, unwind, tuple(tiers)
         self.timeout, self.mem_gb, self.unwindset, self.flags = timeout, mem_gb, unwindset, list(flags)
         self.known = known            # id in known_findings.jsonl: this harness is confined to the finding's input region
@@ -50,6 +50,7 @@ class Harness:
         self.rotate = rotate          # (k, n): in quick tier run only when seed % n == k
         self.thorough_unwind = thorough_unwind
         self.object_bits = object_bits
+        self.rotate_thorough = rotate_thorough   # (k, n): in thorough tier run only when seed % n == k
 
 
 def log(*a):
@@ -216,7 +217,10 @@ class Check:
                 cmd += ['--override', o]
         must(cmd + ['-o', linked], 'llvm-link')
         red = os.path.join(wd, flavour + '.red.bc')
-        must(['opt-14', '-enable-new-pm=0', '-internalize', '-internalize-public-api-list=' + ','.join(entry_points), '-globaldce', linked, '-o', red + '.0'], 'opt internalize')
+        apifile = os.path.join(wd, flavour + '.api.txt')
+        with open(apifile, 'w') as f:
+            f.write('\n'.join(entry_points) + '\n')
+        must(['opt-14', '-enable-new-pm=0', '-internalize', '-internalize-public-api-file=' + apifile, '-globaldce', linked, '-o', red + '.0'], 'opt internalize')
         must(['opt-14', '-O1', '-vectorize-loops=false', '-vectorize-slp=false', '-unroll-threshold=0', '-sink-common-insts=false', '-hoist-common-insts=false', red + '.0', '-o', red], 'opt -O1', timeout=1800)
         return red
 
@@ -428,6 +432,8 @@ class Check:
                 if self.tier not in h.tiers:
                     continue
                 if self.tier == 'quick' and h.rotate and (self.seed % h.rotate[1]) != h.rotate[0]:
+                    continue
+                if self.tier == 'thorough' and h.rotate_thorough and (self.seed % h.rotate_thorough[1]) != h.rotate_thorough[0]:
                     continue
             hs.append(h)
         return hs
